@@ -11,8 +11,8 @@ import (
 )
 
 func init() {
-	Register("C11", "Decides structural necessary conditions of race-freedom: (pool) no result aliases a pooled buffer; (lock) the generated containers follow their locking discipline; (once) once-guarded state is written only inside its once closure and the lazily built fields of a schema object only under LoadOnce/CompileOnce; (ro) outside once closures and held locks, the read-only API (Check, Len, Example, GetAST, UsedUserTypes, OpenAPI conversion) writes no field of the persistent model types. Type-based, not object-based: does NOT decide absence of races in general nor equality with sequential results.",
-		poolRule("C11.pool"), c11lockRule("C11.lock"), c11once, c11ro, c10share("C11.share"))
+	Register("C11", "Decides structural necessary conditions of race-freedom: (pool) no result aliases a pooled buffer; (lock) the generated containers follow their locking discipline; (once) once-guarded state is written only inside its once closure and the lazily built fields of a schema object only under LoadOnce/CompileOnce; (ro) outside once closures and held locks, the read-only API (Check, Len, Example, GetAST, UsedUserTypes, OpenAPI conversion) writes no field of the persistent model types. (global) no package-level variable is written after initialisation except the tabled synchronised objects: goroutines working on their own schemas share nothing else. Type-based, not object-based: does NOT decide absence of races in general nor equality with sequential results.",
+		poolRule("C11.pool"), c11lockRule("C11.lock"), c11once, c11ro, c10share("C11.share"), func(c *core.Ctx) { c10globalAs(c, "C11.global") })
 }
 
 // onceClosures: closures passed (directly) to ErrOnce.Do / ErrOnceWithValue.Do / sync.Once.Do.
@@ -277,10 +277,7 @@ func c11ro(c *core.Ctx) {
 		_, isOnce := oc[f]
 		return isOnce || isLockedContainerMethod[f]
 	})
-	persistent := map[string]bool{}
-	for _, p := range persistentTypes {
-		persistent[p] = true
-	}
+	persistent := persistentClosure(c, R)
 	var fs []*ssa.Function
 	for f := range reach {
 		if _, isOnce := oc[f]; isOnce || isLockedContainerMethod[f] || !c.P.FuncInScope(f) {
@@ -329,4 +326,102 @@ func c11ro(c *core.Ctx) {
 	for _, r := range roots {
 		c.OK(R, "entry:"+core.FuncName(r), c.P.Pos(r.Pos()), "read-only entry "+core.FuncName(r)+" analysed")
 	}
+}
+
+// persistentClosure: the listed model types plus every module struct type reachable from
+// them through fields (pointers, slices, arrays, maps, and the module implementers of
+// interface-typed fields): whatever a schema object holds on to is shared by the concurrent
+// callers of its read-only methods.
+func persistentClosure(c *core.Ctx, R string) map[string]bool {
+	var allNamed []*types.Named
+	for _, pk := range c.P.ScopePkgs() {
+		sc := pk.Types.Scope()
+		for _, n := range sc.Names() {
+			if tn, ok := sc.Lookup(n).(*types.TypeName); ok && !tn.IsAlias() {
+				if nt, ok := tn.Type().(*types.Named); ok && nt.TypeParams().Len() == 0 {
+					allNamed = append(allNamed, nt)
+				}
+			}
+		}
+	}
+	out := map[string]bool{}
+	var work []*types.Named
+	add := func(nt *types.Named) {
+		if nt.Obj().Pkg() == nil || !core.InScope(nt.Obj().Pkg().Path()) {
+			return
+		}
+		name := core.Rel(nt.Obj().Pkg().Path() + "." + nt.Obj().Name())
+		if !out[name] {
+			out[name] = true
+			work = append(work, nt)
+		}
+	}
+	for _, p := range persistentTypes {
+		i := strings.LastIndex(p, ".")
+		pkg, tn := p[:i], p[i+1:]
+		if pkg == "root" {
+			pkg = ""
+		}
+		nt := c.P.NamedType(pkg, tn)
+		if nt == nil {
+			c.Unresolved(R, "persistent type "+p)
+			continue
+		}
+		add(nt)
+	}
+	var visit func(t types.Type, depth int)
+	visit = func(t types.Type, depth int) {
+		if depth > 6 {
+			return
+		}
+		switch x := t.(type) {
+		case *types.Named:
+			if x.TypeArgs().Len() > 0 {
+				for i := 0; i < x.TypeArgs().Len(); i++ {
+					visit(x.TypeArgs().At(i), depth+1)
+				}
+			}
+			if _, isIface := x.Underlying().(*types.Interface); isIface {
+				iface := x.Underlying().(*types.Interface)
+				if iface.NumMethods() == 0 {
+					return
+				}
+				for _, nt := range allNamed {
+					if _, ok := nt.Underlying().(*types.Interface); ok {
+						continue
+					}
+					if types.Implements(nt, iface) || types.Implements(types.NewPointer(nt), iface) {
+						add(nt)
+					}
+				}
+				return
+			}
+			add(x)
+		case *types.Pointer:
+			visit(x.Elem(), depth+1)
+		case *types.Slice:
+			visit(x.Elem(), depth+1)
+		case *types.Array:
+			visit(x.Elem(), depth+1)
+		case *types.Map:
+			visit(x.Key(), depth+1)
+			visit(x.Elem(), depth+1)
+		case *types.Struct:
+			for i := 0; i < x.NumFields(); i++ {
+				visit(x.Field(i).Type(), depth+1)
+			}
+		}
+	}
+	for len(work) > 0 {
+		nt := work[len(work)-1]
+		work = work[:len(work)-1]
+		if st, ok := nt.Underlying().(*types.Struct); ok {
+			for i := 0; i < st.NumFields(); i++ {
+				visit(st.Field(i).Type(), 0)
+			}
+		} else {
+			visit(nt.Underlying(), 0)
+		}
+	}
+	return out
 }
